@@ -5,6 +5,7 @@ import (
 	"fmt"
 	"os"
 	"path/filepath"
+	"strings"
 )
 
 // cmdReplay re-runs the real function on the input recorded in a replay file.
@@ -23,8 +24,10 @@ func cmdReplay(args []string) int {
 		Obligation string `json:"obligation"`
 		Function   string `json:"function"`
 		Replay     *struct {
-			Input  string `json:"input"`
-			GoCall string `json:"go_call"`
+			Input   string            `json:"input"`
+			GoCall  string            `json:"go_call"`
+			Decls   []string          `json:"harness_decls"`
+			Imports map[string]string `json:"harness_imports"`
 		} `json:"replay"`
 		Detail string `json:"detail"`
 		Kind   string `json:"kind"`
@@ -53,11 +56,20 @@ func cmdReplay(args []string) int {
 	work := filepath.Join(VerifDir, ".work", fmt.Sprintf("replay-%d", os.Getpid()))
 	os.MkdirAll(work, 0o755)
 	defer os.RemoveAll(work)
-	out, _, err := prog.runHarness(fn, info.Replay.GoCall, work, nil)
+	nres := fn.Signature.Results().Len()
+	body := info.Replay.GoCall + "\n\t\treturn nil"
+	if nres > 0 {
+		var rs []string
+		for i := 0; i < nres; i++ {
+			rs = append(rs, fmt.Sprintf("r%d", i))
+		}
+		body = strings.Join(rs, ", ") + " := " + info.Replay.GoCall + "\n\t\treturn []any{" + strings.Join(rs, ", ") + "}"
+	}
+	outs, _, err := prog.runHarnessMulti(fn, []string{body}, info.Replay.Decls, info.Replay.Imports, work, nil)
 	if err != nil {
 		fmt.Fprintln(os.Stderr, err)
 		return 2
 	}
-	fmt.Println("observed on the real code:", out)
+	fmt.Println("observed on the real code:", strings.Join(outs, "\n"))
 	return 1
 }
